@@ -8,7 +8,8 @@ Inductive case :=
         (cands : list (option (list string)))   (* per method in [methods] order: error, or candidate ids in node order *)
         (nodeok : list bool)                    (* per node: ValidateNodeDisruptable = nil *)
         (podres : list pres)                    (* per node: ValidatePodsDisruptable error class *)
-| CaseC (i : cinput) (res : option cstatus) (requeue : Z).
+        (noms : list bool)                      (* per node: cluster.IsNodeNominated *)
+| CaseC (i : cinput) (res : option cstatus) (requeue : Z) (under : bool).   (* + IsUnderConsolidateAfter *)
 
 Definition cstatus_eqb (a b : cstatus) : bool :=
   match a, b with CTrue, CTrue | CFalse, CFalse | CUnknown, CUnknown => true | _, _ => false end.
@@ -52,12 +53,16 @@ Definition node_ok_model (w : world) (n : snode) : bool :=
 
 Definition check_case (c : case) : list string :=
   match c with
-  | CaseW w cands nodeok podres =>
+  | CaseW w cands nodeok podres noms =>
       check_methods w methods cands ++
-      (if list_eqb Bool.eqb (map (node_ok_model w) (w_nodes w)) nodeok then [] else ["corr:validate_node"]) ++
-      (if list_eqb pres_eqb (map (validate_pods (w_fault w) (d_now (final w)) (w_pdbs w)) (w_nodes w)) podres
-       then [] else ["corr:validate_pods"])
-  | CaseC i res rq =>
+      (if list_eqb Bool.eqb (map (node_ok_model w) (final_nodes w)) nodeok then [] else ["corr:validate_node"]) ++
+      (if list_eqb pres_eqb (map (validate_pods (w_fault w) (d_now (final w)) (w_pdbs w)) (final_nodes w)) podres
+       then [] else ["corr:validate_pods"]) ++
+      (if list_eqb Bool.eqb
+            (map (fun n => nominated (d_now (final w)) (mem_of (d_mem (final w)) (s_id n))) (w_nodes w)) noms
+       then [] else ["corr:is_node_nominated"])
+  | CaseC i res rq under =>
+      (if Bool.eqb (under_consolidate_after i) under then [] else ["corr:is_under_consolidate_after"]) ++
       (if ocs_eqb (fst (reconcile_consolidatable i)) res && (snd (reconcile_consolidatable i) =? rq)
        then [] else ["corr:reconcile_consolidatable"]) ++
       (if Bool.eqb (cond_true res) (consolidatable_spec_b i) then [] else ["oracle:consolidatable"])
